@@ -25,9 +25,9 @@ def op_strategy(nconn, weights='mixed'):
     mix = ['stall', 'read', 'read', 'readall', 'write', 'write', 'inc', 'commit', 'commit', 'abort', 'begin', 'minimize',
            'close_open', 'readcurrent']
     if weights == 'write-heavy':
-        mix += ['write', 'write', 'inc', 'commit', 'commit', 'readcurrent']
+        mix += ['write', 'write', 'inc', 'commit', 'commit', 'readcurrent', 'savepoint', 'savepoint']
     else:
-        mix += ['read', 'read', 'readall', 'minimize', 'close_open', 'begin']
+        mix += ['read', 'read', 'readall', 'minimize', 'close_open', 'begin', 'savepoint']
     return st.one_of(*[mk(k) for k in mix]).map(list)
 
 
@@ -199,6 +199,10 @@ class MWorld:
             self.labels.add('close-open')
         elif k == 'commit':
             self.commit(c)
+        elif k == 'savepoint':
+            # a savepoint changes nothing observable; the commit then takes the savepoint path
+            self.tms[c].savepoint()
+            self.labels.add('savepoint')
         elif k == 'stall':
             # the clock stops: following transaction ids differ by one tick only
             self.stalled = not self.stalled
